@@ -42,7 +42,8 @@ def sumForms (l : List (LinForm K)) : LinForm K := l.foldr LinForm.add LinForm.z
 
 /-! ## components the formulations accept -/
 
-/-- the two nodes of a one-port the circuit graph accepts -/
+/-- the two nodes of a branch of the circuit graph (`elt.node_names[0:2]`): one-ports and the output side of the
+    dependent sources (which the formulations then refuse: 'Dependent sources not handled yet') -/
 def nodes2 : Cpt K → Option (Nat × Nat)
   | .R a b _ => some (a, b)
   | .Y a b _ => some (a, b)
@@ -50,6 +51,11 @@ def nodes2 : Cpt K → Option (Nat × Nat)
   | .Ind a b _ _ _ _ => some (a, b)
   | .V a b _ _ => some (a, b)
   | .I a b _ => some (a, b)
+  | .E a b _ _ _ _ _ => some (a, b)
+  | .G a b _ _ _ => some (a, b)
+  | .F a b _ _ => some (a, b)
+  | .H a b _ _ _ => some (a, b)
+  | .HY a b _ _ _ _ _ _ _ => some (a, b)
   | _ => none
 
 def isV : Cpt K → Bool
@@ -75,7 +81,9 @@ def indZ (kind : Kind) (s l : K) : K :=
 /-- `current_equation(v, kind)` as an affine function `g·v + i0` of the applied voltage:
     R, G, Y: v/Z;  C: (v − v0/s)/Z = sC·v − C·v0 (Laplace; `v0` only when given);
     L: (v + L·i0)/(sL);  I: isc whatever the voltage.  `none`: no such method / not affine
-    (time-domain C and L give Derivative/Integral, V sources are never asked). -/
+    (time-domain C and L give Derivative/Integral, V sources are never asked), dependent sources and two-ports
+    (the code raises), inductors with a mutual coupling (the code raises with fix-C15-k; before it, it printed the
+    relation of the uncoupled inductor, finding C15-k). -/
 def curEq (kind : Kind) (s : K) : Cpt K → Option (K × K)
   | .R _ _ r => some (1 / r, 0)
   | .Y _ _ y => some (y, 0)
@@ -85,13 +93,13 @@ def curEq (kind : Kind) (s : K) : Cpt K → Option (K × K)
       | .lap => some (s * c, 0)
       | .ivp => some (s * c, match v0 with | some v0 => -(c * v0) | none => 0)
       | .time => none
-  | .Ind _ _ _ l i0 _ =>
+  | .Ind _ _ _ l i0 [] =>
       match kind with
       | .time => none
       | .ivp => some (1 / indZ kind s l, match i0 with | some i0 => (l * i0) / indZ kind s l | none => 0)
       | _ => some (1 / indZ kind s l, 0)
   | .I _ _ i => some (0, i)
-  | _ => none
+  | _ => none          -- also a coupled inductor: 'Mutual inductances not handled yet' (fix-C15-k)
 
 /-- contribution of component `c` to the KCL sum at node `k` (`k` is one of its nodes):
     `i = current_equation(V[k] − V[other])`; seen from the second node the constant part keeps the
@@ -199,14 +207,14 @@ def volEq (kind : Kind) (s : K) : Cpt K → Option (K × K)
       | .lap => some (1 / (s * c), 0)
       | .ivp => some (1 / (s * c), match v0 with | some v0 => v0 / s | none => 0)
       | _ => none
-  | .Ind _ _ _ l i0 _ =>
+  | .Ind _ _ _ l i0 [] =>
       match kind with
       | .lap => some (s * l, 0)
       | .ivp => some (s * l, match i0 with | some i0 => -(l * i0) | none => 0)
       | .dc => some (0, 0)
       | .time => none
   | .V _ _ _ v => some (0, v)
-  | _ => none
+  | _ => none          -- also a coupled inductor (fix-C15-k)
 
 /-- a linear form in the mesh currents `I_0 … ` : coefficient list and constant -/
 structure MeshForm (K : Type) where
